@@ -290,6 +290,19 @@ def gen_round(rng, names):
     doc("one-element-widths-1", "single", [(fA, b_w1)], **sprinkle())
     doc("one-element-widths-2", "single", [(fC, b_w1)], dict(flat=[h_wl2]), **sprinkle())
     doc("short-widths-IndexError", "single", [(fC, b_short)], dict(flat=[]), **sprinkle(exclude=("footnote", "source")))
+    # pages that hold exactly ONE data row, with border specs given as one row with one entry per column (or a
+    # single-column table, whose default [[""]] already has the page's shape): the page processor edits page-shaped
+    # border matrices, which must never be the caller's own lists
+    m = rng.randint(3, 6)
+    p_one = add("RTFPage", nrow=m)
+    fOne = addf(dict(cols=["c0"], rows=[[f"r{i}c0"] for i in range(m * rng.randint(1, 2) + 1)]))
+    fTail = addf(gen_frame(rng, ks[0], m * rng.randint(1, 2) + 1))
+    kT = ncol(fTail)
+    b_brd = add("RTFBody", border_bottom=[rng.choice(["single", "", "dotted"]) for _ in range(kT)],
+                border_top=[rng.choice(["", "", "dashed"]) for _ in range(kT)])
+    doc("one-row-last-page-single-column", "single", [(fOne, rng.choice([b_wl, b_colA]))], page=p_one)
+    doc("one-row-last-page-percol-borders", "single", [(fTail, b_brd)], page=p_one)
+    doc("percol-borders-shared-body", "single", [(fA, b_brd)], **sprinkle())
     return dict(components=comps, frames=frames, docs=docs), labels
 
 
